@@ -7,10 +7,10 @@ import (
 	"github.com/tonistiigi/fsutil/zz_verif/v"
 )
 
-var srcLinkTargets = []string{"f", "/f", "../out/secret", "/../out/secret", "nonexistent", "sl", "../out/sub", "d"}
-var dstLinkTargets = []string{"../out/secret", "../out/newfile", "../out/sub", "/out/secret", "nowhere"}
+var vh_srcLinkTargets = []string{"f", "/f", "../out/secret", "/../out/secret", "nonexistent", "sl", "../out/sub", "d"}
+var vh_dstLinkTargets = []string{"../out/secret", "../out/newfile", "../out/sub", "/out/secret", "nowhere"}
 
-func snapEqual(a, b []m.Entry) bool {
+func vh_snapEqual(a, b []m.Entry) bool {
 	if len(a) != len(b) {
 		return false
 	}
@@ -33,7 +33,7 @@ func VH_C14_contain() {
 	// MODE 1: every destination-side link placement against a fixed source link;
 	// MODE 2: both sides varied over reduced candidate lists
 	mode := v.Param("MODE", 0)
-	nSrc, nDst := len(srcLinkTargets), len(dstLinkTargets)
+	nSrc, nDst := len(vh_srcLinkTargets), len(vh_dstLinkTargets)
 	if mode == 1 {
 		nSrc = 1
 	}
@@ -51,9 +51,9 @@ func VH_C14_contain() {
 	m.MkFile(src+"/f", v.Bytes("data", 1), 0644, 2, 2, 7)
 	m.MkDir(src+"/d", 0755, 2, 2, 7)
 	m.MkFile(src+"/d/g", v.Bytes("data", 1), 0644, 2, 2, 7)
-	m.MkSymlink(src+"/sl", srcLinkTargets[v.Choose("src-link", nSrc)], 2, 2, 7)
+	m.MkSymlink(src+"/sl", vh_srcLinkTargets[v.Choose("src-link", nSrc)], 2, 2, 7)
 	if mode != 1 && v.Bool("src-d/sl") {
-		m.MkSymlink(src+"/d/sl", srcLinkTargets[v.Choose("src-link2", nSrc)], 2, 2, 7)
+		m.MkSymlink(src+"/d/sl", vh_srcLinkTargets[v.Choose("src-link2", nSrc)], 2, 2, 7)
 	}
 
 	nState := 3
@@ -62,21 +62,21 @@ func VH_C14_contain() {
 	}
 	switch v.Choose("dst-f", nState) {
 	case 1:
-		m.MkSymlink(dst+"/f", dstLinkTargets[v.Choose("dst-link-f", nDst)], 3, 3, 7)
+		m.MkSymlink(dst+"/f", vh_dstLinkTargets[v.Choose("dst-link-f", nDst)], 3, 3, 7)
 	case 2:
 		m.MkFile(dst+"/f", []byte("old"), 0600, 3, 3, 7)
 	}
 	switch v.Choose("dst-d", nState) {
 	case 1:
-		m.MkSymlink(dst+"/d", dstLinkTargets[v.Choose("dst-link-d", nDst)], 3, 3, 7)
+		m.MkSymlink(dst+"/d", vh_dstLinkTargets[v.Choose("dst-link-d", nDst)], 3, 3, 7)
 	case 2:
 		m.MkDir(dst+"/d", 0700, 3, 3, 7)
 		if v.Bool("dst-d/g-link") {
-			m.MkSymlink(dst+"/d/g", dstLinkTargets[v.Choose("dst-link-g", nDst)], 3, 3, 7)
+			m.MkSymlink(dst+"/d/g", vh_dstLinkTargets[v.Choose("dst-link-g", nDst)], 3, 3, 7)
 		}
 	}
 	if mode != 0 && v.Bool("dst-x-link") {
-		m.MkSymlink(dst+"/x", dstLinkTargets[v.Choose("dst-link-x", nDst)], 3, 3, 7)
+		m.MkSymlink(dst+"/x", vh_dstLinkTargets[v.Choose("dst-link-x", nDst)], 3, 3, 7)
 	}
 	outBefore := m.Snapshot(out)
 	srcBefore := m.Snapshot(src)
@@ -105,13 +105,13 @@ func VH_C14_contain() {
 	} else {
 		v.Cover("success")
 	}
-	v.Assert(snapEqual(outBefore, m.Snapshot(out)), "nothing outside the destination root is created, changed or removed")
-	v.Assert(snapEqual(srcBefore, m.Snapshot(src)), "the source tree is not modified")
+	v.Assert(vh_snapEqual(outBefore, m.Snapshot(out)), "nothing outside the destination root is created, changed or removed")
+	v.Assert(vh_snapEqual(srcBefore, m.Snapshot(src)), "the source tree is not modified")
 	for _, op := range m.Ops() {
 		if op.Kind == "read" {
-			v.Assert(isUnder(op.Path, src), "file content is only read inside the source root")
+			v.Assert(vh_isUnder(op.Path, src), "file content is only read inside the source root")
 		} else {
-			v.Assert(op.Path == dst || isUnder(op.Path, dst), "every mutating operation resolves inside the destination root")
+			v.Assert(op.Path == dst || vh_isUnder(op.Path, dst), "every mutating operation resolves inside the destination root")
 		}
 	}
 }
